@@ -11,6 +11,58 @@ type state struct {
 	q      request
 	groups map[int]bool
 	ctxErr int // -1: no error in the request context; else raw status (0 = not a HandlerError)
+	repl   int // -1: {http.error.status_code} unset; the replacer is shared by all copies of a request
+}
+
+// withError is HTTPErrorConfig.WithError: the placeholder is only set for a HandlerError.
+func (s *state) withError(st int) {
+	s.ctxErr = st
+	if st != 0 {
+		s.repl = st
+	}
+}
+
+func (s state) replStr() string {
+	if s.repl < 0 {
+		return "n"
+	}
+	return strconv.Itoa(s.repl)
+}
+
+// resolve is strconv.Atoi(repl.ReplaceAll(status_code, "")) of the real error / static_response
+// handlers; ok=false: Atoi failed.
+func (s state) resolve(src int) (int, bool) {
+	switch src {
+	case 1:
+		return s.repl, s.repl >= 0
+	case 2:
+		return 0, false
+	}
+	return src, true
+}
+
+// realHandler is what the real `error` ('x') and `static_response` ('y') handlers do with their
+// status_code: isErr, status.
+func (s state) realHandler(kind byte, src int) (bool, int) {
+	if kind == 'x' {
+		if src == 0 {
+			return true, 500
+		}
+		if n, ok := s.resolve(src); ok {
+			return true, n
+		}
+		return true, 500
+	}
+	if src == 0 {
+		if s.ctxErr > 0 {
+			return false, s.ctxErr
+		}
+		return false, 200
+	}
+	if n, ok := s.resolve(src); ok {
+		return false, n
+	}
+	return true, 500
 }
 
 func (s state) field(f int) int {
@@ -126,7 +178,7 @@ type specRun struct {
 func (x *specRun) tag(t string) { x.tags[t] = true }
 
 func (x *specRun) record(id int) {
-	x.events = append(x.events, event{id: id, path: paths[x.s.q.path], err: x.s.errStr()})
+	x.events = append(x.events, event{id: id, path: paths[x.s.q.path], err: x.s.errStr(), repl: x.s.replStr()})
 }
 
 func (x *specRun) handlers(hs []*handler) *stop {
@@ -146,12 +198,19 @@ func (x *specRun) handlers(hs []*handler) *stop {
 			x.record(h.id)
 			x.tag("handler-error")
 			return &stop{true, h.arg}
+		case 'x', 'y':
+			isErr, st := x.s.realHandler(h.kind, h.arg)
+			x.tag(map[byte]string{'x': "real-error-handler", 'y': "real-static-response"}[h.kind] + ":" + []string{"default", "placeholder", "not-a-number", "number"}[min(h.arg, 3)])
+			if h.arg == 1 && x.s.repl >= 0 && x.s.repl != x.s.ctxErr {
+				x.tag("placeholder-stale-after-plain-error")
+			}
+			return &stop{isErr, st}
 		case 's':
 			x.tag("subroute")
 			st := x.routes(h.routes)
 			if st != nil && st.isErr && h.hasErrs {
 				x.tag("subroute-errors-run")
-				x.s.ctxErr = st.status
+				x.s.withError(st.status)
 				st = x.routes(h.errs)
 			}
 			if st != nil {
@@ -224,7 +283,7 @@ func (x *specRun) routes(rs []*route) *stop {
 
 // specEval evaluates a request by the documented routing rules.
 func specEval(rs []*route, hasErrs bool, errs []*route, q request) (outcome, map[string]bool) {
-	x := &specRun{s: state{q: q, groups: map[int]bool{}, ctxErr: -1}, tags: map[string]bool{}}
+	x := &specRun{s: state{q: q, groups: map[int]bool{}, ctxErr: -1, repl: -1}, tags: map[string]bool{}}
 	st := x.routes(rs)
 	switch {
 	case st == nil:
@@ -242,7 +301,7 @@ func specEval(rs []*route, hasErrs bool, errs []*route, q request) (outcome, map
 		x.tag("error-routes:uri-restored")
 	}
 	x.s.q.path = q.path
-	x.s.ctxErr = st.status
+	x.s.withError(st.status)
 	st2 := x.routes(errs)
 	switch {
 	case st2 == nil:
@@ -273,7 +332,7 @@ type cres struct {
 func rec(ev []event, id int, s state) []event {
 	out := make([]event, len(ev), len(ev)+1)
 	copy(out, ev)
-	return append(out, event{id: id, path: paths[s.q.path], err: s.errStr()})
+	return append(out, event{id: id, path: paths[s.q.path], err: s.errStr(), repl: s.replStr()})
 }
 
 func cHandlers(hs []*handler, k kont) kont {
@@ -292,12 +351,17 @@ func cHandlers(hs []*handler, k kont) kont {
 			}
 		case 'f':
 			k = func(s state, ev []event) cres { return cres{true, h.arg, s, rec(ev, h.id, s)} }
+		case 'x', 'y':
+			k = func(s state, ev []event) cres {
+				isErr, st := s.realHandler(h.kind, h.arg)
+				return cres{isErr, st, s, ev}
+			}
 		case 's':
 			k = func(s state, ev []event) cres {
 				r := cRoutes(h.routes, next)(s, ev)
 				if r.isErr && h.hasErrs {
 					s2 := r.s
-					s2.ctxErr = r.status
+					s2.withError(r.status)
 					return cRoutes(h.errs, next)(s2, r.events)
 				}
 				return r
@@ -339,7 +403,7 @@ func cRoutes(rs []*route, k kont) kont {
 }
 
 func codeEval(rs []*route, hasErrs bool, errs []*route, q request) outcome {
-	s := state{q: q, groups: map[int]bool{}, ctxErr: -1}
+	s := state{q: q, groups: map[int]bool{}, ctxErr: -1, repl: -1}
 	r := cRoutes(rs, func(s state, ev []event) cres { return cres{false, -1, s, ev} })(s, nil)
 	if !r.isErr {
 		return outcome{r.events, r.status}
@@ -349,7 +413,7 @@ func codeEval(rs []*route, hasErrs bool, errs []*route, q request) outcome {
 	}
 	s2 := r.s
 	s2.q.path = q.path
-	s2.ctxErr = r.status
+	s2.withError(r.status)
 	r2 := cRoutes(errs, func(s state, ev []event) cres { return cres{false, writeStatus(s.ctxErr), s, ev} })(s2, r.events)
 	if !r2.isErr {
 		return outcome{r2.events, r2.status}
@@ -372,8 +436,10 @@ func setsCanErr(sets [][]*matcher) bool {
 
 func hCanFail(h *handler) bool {
 	switch h.kind {
-	case 'f':
+	case 'f', 'x':
 		return true
+	case 'y':
+		return h.arg == 1 || h.arg == 2
 	case 's':
 		if h.hasErrs {
 			return rsCanFail(h.errs)
@@ -436,7 +502,7 @@ func sameEvents(a, b []event) bool {
 		return false
 	}
 	for i := range a {
-		if a[i].id != b[i].id || a[i].path != b[i].path || a[i].err != b[i].err {
+		if a[i].id != b[i].id || a[i].path != b[i].path || a[i].err != b[i].err || a[i].repl != b[i].repl {
 			return false
 		}
 	}
